@@ -770,6 +770,13 @@ func RunTransfer(env *Env, plan *TransferPlan) {
 	for _, ws := range plan.Webseeds {
 		hasSource = hasSource || ws.Honest
 	}
+	if plan.Magnet && sut.Cfg.MaxMetadataSize > 0 && len(T.InfoBytes) > int(sut.Cfg.MaxMetadataSize) {
+		// the torrent's own metadata is over the configured limit: the client must refuse it
+		if hasSource {
+			simrt.Count("probe.transfer.liveness_skipped_metadata_over_limit", 1)
+		}
+		hasSource = false
+	}
 	nStay := 0
 	for _, ps := range plan.Peers {
 		if ps.Stays && !ps.Honest {
